@@ -62,6 +62,13 @@ class C01:
             out["counters"]["reach.cache_entry_populated_in_worker"] = 1
             out["counters"]["sim_seconds_in_cache_waits"] = int(sim.now)
         out["counters"]["interaction_rows"] = len(t_ref["interactions"])
+        for g in spec["envs"]:
+            out["counters"][f"reach.src.{g['src'][0]}"] = out["counters"].get(f"reach.src.{g['src'][0]}", 0) + (1 if t_ref["interactions"] else 0)
+        out["counters"][f"reach.flavour.{spec.get('flavour')}"] = 1
+        for l in spec["learners"]:
+            out["counters"][f"reach.learner.{l[0]}"] = 1
+        for e in spec["evaluators"]:
+            out["counters"][f"reach.evaluator.{e[0]}"] = 1
         out["counters"]["triples_with_rows"] = len({(r["environment_id"], r["learner_id"], r["evaluator_id"]) for r in t_ref["interactions"]})
         v = None
         twice = {k: p for k, p in getters.items() if len(p) > 1}
